@@ -99,6 +99,9 @@ def gen_method(rng, idx, cfg, opts):
                 if opts.get("enums") and rng.random() < 0.35:
                     p["type"] = rng.choice(ENUMS)
                     p["validator"] = None
+                if opts.get("local_types") and loc == "query" and rng.random() < 0.3:
+                    p["type"] = "LocalPrio"          # an enum declared in the controller's own file
+                    p["validator"] = None
                 if rng.random() < 0.4:
                     p["alias"] = rng.choice(["X-" + name, name + "_w", name.upper()])
                 p["validator"] = rng.choice([None, None, "required", "gte=0"]) if p["type"] not in ("string", "bool") \
@@ -112,6 +115,12 @@ def gen_method(rng, idx, cfg, opts):
                     p["alias"] = other["alias"] or other["name"]
             params.append(p)
     ret = rng.choice([None, "string", "int", "Item", "*Item"]) if opts.get("types", True) else rng.choice([None, "string"])
+    if opts.get("local_types"):
+        if ret in ("Item", "*Item") and rng.random() < 0.5:
+            ret = ret.replace("Item", "LocalDto")
+        for prm in params:
+            if prm["loc"] == "body" and rng.random() < 0.5:
+                prm["type"] = "LocalDto"
     errors = []
     for code in rng.sample([400, 404, 409, 500, 503], rng.choice([0, 0, 1, 2])):
         errors.append({"code": code, "descr": rng.choice(["", "bad", "not found here"])})
@@ -175,6 +184,23 @@ def gen_project(rng, opts=None):
             midx += 1
             methods.append(m)
         prefix = rng.choice(["", "/c%d" % ci, "/c%d/" % ci, "/api//c%d" % ci, "/shared"])
+        if controllers and rng.random() < 0.3:
+            # a read / write pair of controllers on one resource: same prefix, same method route, other verbs
+            prev = rng.choice(controllers)
+            prefix = prev["route"]
+            for m in methods:
+                if prev["methods"] and rng.random() < 0.6:
+                    sib = rng.choice(prev["methods"])
+                    taken = [x["verb"] for x in prev["methods"] + methods if x["route"] == sib["route"] and x is not m]
+                    free = [v for v in VERBS if v not in taken]
+                    if free:
+                        m["route"] = sib["route"]
+                        m["verb"] = rng.choice(free)
+                        m["params"] = [dict(x) for x in sib["params"] if x["loc"] == "path"] + \
+                                      [x for x in m["params"] if x["loc"] != "path" and
+                                       not (m["verb"] == "GET" and x["loc"] in ("body", "form"))]
+                        seen = set()
+                        m["params"] = [x for x in m["params"] if not (x["name"] in seen or seen.add(x["name"]))]
         controllers.append({
             "name": "%sCtl%d" % (rng.choice(["B", "A", "Z"]), ci),
             "pkg": "ctl" if (ci % 2 == 0 or not opts.get("multipkg", True)) else "ctlb",
@@ -182,6 +208,17 @@ def gen_project(rng, opts=None):
             "security": gen_security(rng, schemes, opts.get("undeclared", False)) if opts.get("security", True) else [],
             "descr": rng.choice(["", "Controller description"]), "methods": methods,
         })
+    # package-local types get a per-package name (same-named types in two packages are finding F16)
+    for c in controllers:
+        local = "Local%sDto" % c["pkg"].capitalize()
+        for m in c["methods"]:
+            if m["ret"] and "LocalDto" in m["ret"]:
+                m["ret"] = m["ret"].replace("LocalDto", local)
+            for prm in m["params"]:
+                if prm["type"] == "LocalDto":
+                    prm["type"] = local
+                if prm["type"] == "LocalPrio":
+                    prm["type"] = "Local%sPrio" % c["pkg"].capitalize()
     return {"config": cfg, "controllers": controllers, "types": ["Item"]}
 
 
@@ -329,7 +366,8 @@ def render_project(p, root, modpath, method_body=None, extra_imports=None):
         for c in p["controllers"]:
             if c["pkg"] != pkg:
                 continue
-            key = "%s_0.go" % c["name"].lower()
+            stem = "all" if p.get("shared_files") else c["name"].lower()
+            key = "%s_0.go" % stem
             lines = []
             if c["descr"]:
                 lines.append("// " + c["descr"])
@@ -342,8 +380,21 @@ def render_project(p, root, modpath, method_body=None, extra_imports=None):
             lines.append("type %s struct {\n\truntime.GleeceController\n}" % c["name"])
             files.setdefault(key, []).append("\n".join(lines))
             for m in c["methods"]:
-                mk = "%s_%d.go" % (c["name"].lower(), m["file"])
+                mk = "%s_%d.go" % (stem, m["file"])
                 files.setdefault(mk, []).append(render_method(c, m, "types", method_body))
+        local = "Local%sDto" % pkg.capitalize()
+        if any(local in (x.get("type") or "") for c in p["controllers"] if c["pkg"] == pkg for m in c["methods"]
+               for x in m["params"]) or any(local in (m["ret"] or "") for c in p["controllers"] if c["pkg"] == pkg
+                                            for m in c["methods"]):
+            with open(os.path.join(d, "models.go"), "w") as f:
+                f.write("package %s\n\n// A type declared next to the controllers, in a file the globs do not match\n"
+                        "type %s struct {\n\tLabel string `json:\"label\"`\n\tRank int `json:\"rank\"`\n}\n" % (pkg, local))
+        prio = "Local%sPrio" % pkg.capitalize()
+        if files and any(prio == x.get("type") for c in p["controllers"] if c["pkg"] == pkg for m in c["methods"]
+                         for x in m["params"]):
+            first = sorted(k for k in files if k.endswith("_0.go"))[0]
+            files[first].append("// A priority, declared next to the controllers\ntype %s string\n\nconst (\n\t%sHigh %s = \"high\"\n"
+                                "\t%sLow  %s = \"low\"\n)" % (prio, prio, prio, prio, prio))
         for fn, chunks in files.items():
             src = "\n\n".join(chunks)
             imports = []
@@ -366,7 +417,8 @@ def render_config(p, root, modpath, openapi="3.0.0", engine=None, extra=None):
                for n in cfg["schemes"]]
     pkgs = sorted(set(c["pkg"] for c in p["controllers"]))
     conf = {
-        "commonConfig": {"controllerGlobs": ["./%s/*.go" % g for g in pkgs]},
+        # controller files are named <stem>_<k>.go; models.go (package-local types) is deliberately not matched
+        "commonConfig": {"controllerGlobs": ["./%s/*_*.go" % g for g in pkgs]},
         "routesConfig": {
             "engine": engine or cfg["engine"], "outputPath": "./dist/routes.go", "outputFilePerms": "0644",
             "packageName": "routes", "skipGenerateDateComment": True,
